@@ -525,6 +525,30 @@ def check_poly(tn, inp):
     return None
 
 
+def check_poly_forms(tn, inp):
+    """poly with the shift given in every documented form (int / float scalar, list of ints, list of floats, int64 / float64
+    ndarray) and powers large enough that (index + shift)^power leaves the int64 range; relative comparison with exact integers"""
+    ns, shl, power, scale = inp['ns'], inp['shift'], inp['power'], inp['scale']
+    d = len(ns)
+    E = np.zeros(ns)
+    for idx in itertools.product(*[range(k) for k in ns]):
+        E[idx] = float(scale * sum((idx[k] + shl[k]) ** power for k in range(d)))
+    forms = [('list of ints', [int(x) for x in shl]), ('list of floats', [float(x) for x in shl]),
+             ('int64 ndarray', np.array(shl, dtype=np.int64)), ('float64 ndarray', np.array(shl, dtype=float))]
+    if len(set(shl)) == 1:
+        forms += [('int scalar', int(shl[0])), ('float scalar', float(shl[0]))]
+    for name, sh in forms:
+        try:
+            A = _full(tn.poly(ns, sh, power, float(scale)))
+        except Exception as e:  # noqa
+            return dict(what=f'poly (shift as {name}) raised ' + repr(e)[:150])
+        if A.shape != E.shape or not np.allclose(A, E, rtol=1e-11, atol=0.0):
+            k = int(np.argmax(np.abs(A - E).reshape(-1))) if A.shape == E.shape else 0
+            return dict(what=f'poly tensor (shift as {name}) differs from scale*sum (i+shift)^power',
+                        got=float(A.reshape(-1)[k]) if A.shape == E.shape else list(A.shape), expected=float(E.reshape(-1)[k]))
+    return None
+
+
 def _ranks(r, d):
     return [1] + [int(r)] * (d - 1) + [1] if isinstance(r, int) else list(r)
 
@@ -607,7 +631,7 @@ def check_rand_stab(tn, inp):
 
 
 CHECKS = dict(const=check_const, delta=check_delta, vector_delta=check_vector_delta, matrix_delta=check_matrix_delta,
-              poly=check_poly, rand=check_rand, rand_stab=check_rand_stab)
+              poly=check_poly, poly_forms=check_poly_forms, rand=check_rand, rand_stab=check_rand_stab)
 
 
 def _run(tn, kind, inp):
@@ -681,6 +705,10 @@ def search(R, ctx, deep, hints):
         ns = gen_shape(rng, 2, 5, 4)
         sh = rng.randint(-3, 3) if rng.random() < 0.4 else [rng.randint(-3, 3) for _ in ns]
         cases.append(('poly', dict(ns=ns, shift=sh, power=rng.randint(0, 5), scale=rng.choice([1, -1, 2, 7, 0]))))
+    for _ in range(max(6, N // 4)):
+        ns = [rng.randint(2, 12) for _ in range(rng.randint(2, 3))]
+        shl = [rng.randint(0, 3)] * len(ns) if rng.random() < 0.3 else [rng.randint(0, 3) for _ in ns]
+        cases.append(('poly_forms', dict(ns=ns, shift=shl, power=rng.choice([1, 2, 3, 7, 12, 18, 20, 25]), scale=rng.choice([1, -1, 2]))))
     for _ in range(N):
         ns = gen_shape(rng, 2, 5, 4)
         d = len(ns)
